@@ -12,3 +12,16 @@ func init() {
 		},
 	})
 }
+
+func init() {
+	register(&propSpec{
+		ID: "C10", Level: "exploration", Race: true, Procs: []int{1},
+		QuickRuns: 3000, QuickSecs: 90, ThorRuns: 300000, ThorSecs: 1500,
+		Rule: "one evaluation = one seeded simulated run on a -race build of the instrumented copy: 2-16 tasks issue 2-60 registry calls each (AddClass/AddInterface/AddFunc/GetClass/GetInterface/GetFunc/LoadPkg/SetConstant/GetConstant/EnsureGlobalZVal/php file cache/AllClasses/AllFuncs/GetOrLoadClass with autoload from fixture files) over a pool of 1-6 overlapping names, preempted at statement granularity inside the VM methods (lock-aware). Non-trivial = at least one preemption inside runtime/vm*.go, parser/class_path_manager.go or runtime/autoload.go; distinct = distinct hash of (context-switch sequence with yield sites, recorded call history).",
+		Assume: []string{
+			"the Go race detector reports every unsynchronised conflicting access pair it observes in the serialised execution (its shadow memory keeps a bounded history)",
+			"preemption is statement-granular; torn read-modify-write inside one statement is visible only to the race detector",
+			"names differing only by case are not generated (that ambiguity belongs to C20)",
+		},
+	})
+}
